@@ -37,8 +37,9 @@ def splits(n, parts):
 
 
 def make_sim(root, simname, layout=('onefile', 'ungrouped'), restarts=None, shape=(6, 5, 4), cuts=(1, 1, 1), ghost=2,
-             rls=(0,), variables=('alp', 'betax', 'gxx'), chunk_order=None, t_of=lambda it: 1.0 + 0.5 * it, groups=None):
-    """restarts: list of (restart number, [iterations], generation tag).  -> truth dict"""
+             rls=(0,), variables=('alp', 'betax', 'gxx'), chunk_order=None, t_of=lambda it: 1.0 + 0.5 * it, groups=None, single_as_chunk=(False, False)):
+    """restarts: list of (restart number, [iterations], generation tag).  -> truth dict
+    single_as_chunk = (file_0 in the name, c=0 in the key) also when there is a single piece (a one-process run)"""
     restarts = restarts or [(0, [0, 2, 4], 0)]
     proc, grouped = layout[0] == 'proc', layout[1] == 'grouped'
     nx, ny, nz = shape
@@ -71,8 +72,8 @@ def make_sim(root, simname, layout=('onefile', 'ungrouped'), restarts=None, shap
                         blk = Gp[x0:x1 + 2 * ghost, y0:y1 + 2 * ghost, z0:z1 + 2 * ghost]
                         arr = np.transpose(blk, (2, 1, 0))         # stored [z, y, x]
                         multi = len(boxes) > 1
-                        fname = base + (f'.file_{c_file}' if (proc and multi) else '') + '.h5'
-                        key = f'{thorn}::{var} it={it} tl=0' + (' m=0' if False else '') + f' rl={rl}' + (f' c={c_file}' if multi else '')
+                        fname = base + (f'.file_{c_file}' if (proc and (multi or single_as_chunk[0])) else '') + '.h5'
+                        key = f'{thorn}::{var} it={it} tl=0' + (' m=0' if False else '') + f' rl={rl}' + (f' c={c_file}' if (multi or single_as_chunk[1]) else '')
                         ds = fobj(fname).create_dataset(key, data=arr)
                         ds.attrs['cctk_nghostzones'] = np.array([ghost] * 3, dtype=np.int32)
                         ds.attrs['iorigin'] = np.array([x0, y0, z0], dtype=np.int32)
